@@ -17,11 +17,24 @@ Modelling decisions (all stated in the evidence `explanation` as well):
   created with `dir=<sanitised>`, a local all of whose definitions are
   sanitised, or a parameter bound to a sanitised value at every `self.m(...)`
   call site in the class (one level of call-argument binding).
-* C19.b interprets the guards in front of the sanitiser's `return` over a small
-  vocabulary of idioms (documented at `_guard_facts`).  A fact counts when the
-  set of branch outcomes establishing it collectively dominates the return, so
-  `if a or b: raise` / `if a: raise; if b: raise` / a `for` loop with a raising
-  test are equivalent.  `assert` never creates a branch and so never counts.
+* C19.b, C19.c, C19.d and C19.f are decided on the states of a small symbolic
+  executor (rules/_kit_c19.py) that walks the CFGs of the class, steps into
+  helper methods / module functions / closures / lambdas / methods handed over
+  as callables, and folds expressions over scenario constants with the
+  checker's own evaluator.  "X only happens when C" is phrased as "under the
+  scenario not-C, X is unreachable":
+    - C19.b: the Uri-Path is a symbolic sequence with one distinguished
+      component of the excluded kind ('/' inside, '.', '..', empty leading
+      component); the sanitiser's `return` must be unreachable.  A violation
+      needs a path without uninterpreted decisions (or a concrete witness path
+      evaluated end to end); otherwise the clause refuses.
+    - C19.c: self.write is False (the constructor default) / None / 0; no
+      mutating sink may be reachable and the exits after the flag was read
+      answer 4.03.
+    - C19.f: the Uri-Path is (); no mutating sink may be reachable.
+    - C19.d: the values reaching seek/read/the response are compared by
+      normal form in every state.
+  `assert` never creates a branch and so never counts.
 """
 
 import ast
@@ -29,6 +42,7 @@ import ast
 from ..rulekit import *
 from ..norm import Normalizer, Poly
 from ..exc import EscapeAnalysis
+from . import _kit_c19 as kit
 
 R = Rules(
     "C19",
@@ -37,11 +51,16 @@ R = Rules(
         "file-system sink of FileServer receives a path that flows from the single sanitiser "
         "request_to_localpath (directly, via .parent, via iterdir() children, via keys of _observations, via "
         "a temp file created inside a sanitised directory, or via a parameter bound to such a value at every "
-        "call site); (b) the sanitiser returns self.root / '/'.join(components) of the request's Uri-Path and "
-        "branch outcomes that collectively dominate the return exclude a component containing '/', the "
-        "components '.' and '..', and an absolute join (empty non-final or first component, absolute joined "
-        "value, or containment of the result in self.root); (c) every mutating sink is dominated by the "
-        "self.write test, whose failing side answers 4.03, and self.write is only assigned in __init__; "
+        "call site, a call site being a call or the handing over of the method as a callable with its arguments); "
+        "(b) the sanitiser returns self.root / '/'.join(components) of the request's Uri-Path and its return is "
+        "unreachable, in a symbolic execution of the sanitiser and the helpers it calls, for every Uri-Path that "
+        "contains a component with '/', the component '.', the component '..', or an empty leading component "
+        "followed by another one (absolute join) -- whether the rejection is spelled with any()/all(), loops, "
+        "membership tests, helper predicates, tests on the joined string or containment of the result in "
+        "self.root; (c) with self.write False/None/0 no mutating sink (including those in helpers, closures, "
+        "lambdas and methods handed over as callables) is reachable, the exits after the flag was consulted "
+        "answer 4.03, and self.write is only assigned in __init__; (f) with an empty Uri-Path no mutating sink "
+        "is reachable; "
         "(d) render_get_file seeks to block.start, reads block.size+1 bytes in binary mode, sets more iff "
         "len(data) > block.size, sends data[:block.size] and answers (block.number, more, block.szx), with "
         "start = number*size; (e) the sanitiser's only escapes are 4.00 renderable errors, the trailing-slash "
@@ -51,7 +70,7 @@ R = Rules(
         "Not decided: symlinks inside the root, races with other processes, NUL bytes (rejected by the OS "
         "layer with ValueError before any access)."
     ),
-    rule_text="def-use flow with one level of call-argument binding, collective dominance of guard outcomes on the CFG, polynomial normal forms, class-hierarchy facts, escape sets",
+    rule_text="def-use flow with one level of call-argument binding; scenario-based symbolic execution over the CFGs of the class (finite-state, interprocedural inside the class, the checker's own constant evaluator, symbolic sequences with a distinguished element); polynomial normal forms; class-hierarchy facts; escape sets",
 )
 
 FS = "cli.fileserver.FileServer"
@@ -203,6 +222,21 @@ class Flow:
                     if name in ("rename", "replace", "symlink_to", "hardlink_to", "link_to", "samefile") and n.args:
                         paths.append(n.args[0])
                     out.append((n, paths, mut, "." + name + "()"))
+        # a path method taken as a value (`cleanup = tmp.unlink`, `partial(tmp.rename, path)`, `run_in_executor(None,
+        # path.unlink)`) is the same sink as its call; it is pinned where the method value is taken
+        called = {id(n.func) for n in _scope_nodes(scope) if isinstance(n, ast.Call)}
+        for parent in _scope_nodes(scope):
+            if isinstance(parent, ast.Call):
+                kids = list(parent.args) + [k.value for k in parent.keywords]
+            elif isinstance(parent, (ast.Assign, ast.AnnAssign, ast.Return, ast.NamedExpr)) and parent.value is not None:
+                kids = [parent.value]
+            elif isinstance(parent, (ast.Tuple, ast.List)) and isinstance(getattr(parent, "ctx", None), ast.Load):
+                kids = list(parent.elts)
+            else:
+                continue
+            for n in kids:
+                if isinstance(n, ast.Attribute) and id(n) not in called and (n.attr in PATH_WRITE or (n.attr in PATH_READ and self.kind(scope, n.value) is not None)):
+                    out.append((n, [n.value], n.attr in PATH_WRITE, "." + n.attr + " (method value)"))
         return out
 
     def file_writes(self, scope):
@@ -345,9 +379,15 @@ class Flow:
                                     elif isinstance(tt, ast.Subscript) and chain(tt.value) == "self._observations":
                                         key = tt.slice
                         elif isinstance(n, ast.Call) and isinstance(n.func, ast.Attribute) and chain(n.func.value) == "self._observations":
-                            if n.func.attr == "setdefault" and n.args:
+                            if n.func.attr in ("setdefault", "__setitem__") and n.args:
                                 key = n.args[0]
-                            elif n.func.attr in ("update", "__setitem__", "fromkeys"):
+                            elif n.func.attr == "update" and len(n.args) == 1 and not n.keywords and isinstance(n.args[0], ast.Dict) and all(k is not None for k in n.args[0].keys):
+                                # d.update({k: v}) inserts exactly the displayed keys
+                                for k in n.args[0].keys:
+                                    n_ins += 1
+                                    if self.kind(scope, k) != "path":
+                                        ok = False
+                            elif n.func.attr in ("update", "fromkeys"):
                                 ok = False
                         if key is not None:
                             n_ins += 1
@@ -357,12 +397,49 @@ class Flow:
         return self._obs
 
     def call_sites(self, meth_name):
-        """[(scope, call)] of self.<meth>(...) anywhere in the class."""
+        """[(scope, call)] of self.<meth>(...) anywhere in the class.  A method handed over as a callable with its
+        arguments -- functools.partial(self.m, a), loop.run_in_executor(None, self.m, a), asyncio.to_thread(self.m, a),
+        call_soon(self.m, a): the positional arguments that follow the callable are its arguments -- is the same
+        fact as the call self.m(a); it is returned as a synthetic Call whose `_site` is the reference and whose
+        `_via` is the enclosing call."""
         out = []
         for fi in self.funcs:
+            sn = _self_name(fi)
+            if sn is None:
+                continue
+            ref = lambda x: isinstance(x, ast.Attribute) and isinstance(x.value, ast.Name) and x.value.id == sn and x.attr == meth_name
             for scope in _scopes(fi):
                 for n in _scope_nodes(scope):
-                    if isinstance(n, ast.Call) and chain(n.func) == "self." + meth_name:
+                    if not isinstance(n, ast.Call):
+                        continue
+                    if ref(n.func):
+                        out.append((scope, n))
+                    for i, a in enumerate(n.args):
+                        if ref(a):
+                            partial = (chain(n.func) or "").split(".")[-1] == "partial"
+                            synth = ast.Call(func=a, args=list(n.args[i + 1:]), keywords=list(n.keywords) if partial else [])
+                            ast.copy_location(synth, n)
+                            synth._site, synth._via = a, n
+                            out.append((scope, synth))
+        return out
+
+    def bare_refs(self, meth_name):
+        """[(scope, attribute)] of references self.<meth> that are neither called nor handed over with arguments"""
+        out = []
+        for fi in self.funcs:
+            sn = _self_name(fi)
+            if sn is None:
+                continue
+            for scope in _scopes(fi):
+                nodes = _scope_nodes(scope)
+                used = set()
+                for n in nodes:
+                    if isinstance(n, ast.Call):
+                        used.add(id(n.func))
+                        used.update(id(a) for a in n.args)
+                for n in nodes:
+                    if isinstance(n, ast.Attribute) and isinstance(n.value, ast.Name) and n.value.id == sn and n.attr == meth_name \
+                            and id(n) not in used and isinstance(n.ctx, ast.Load):
                         out.append((scope, n))
         return out
 
@@ -387,6 +464,18 @@ class Flow:
         res = kinds.pop() if len(kinds) == 1 and sites else None
         self._param[key] = res
         return res
+
+
+def _self_name(fi):
+    """name of the instance parameter of the method enclosing fi (None for static methods / plain functions)"""
+    m = fi
+    while m.parent is not None:
+        m = m.parent
+    if m.cls is None or any((chain(d) or "") == "staticmethod" for d in m.node.decorator_list):
+        return None
+    a = m.node.args
+    ps = a.posonlyargs + a.args
+    return ps[0].arg if ps else None
 
 
 def _const_str_(e):
@@ -440,23 +529,6 @@ def _const_str(e):
     return e.value if isinstance(e, ast.Constant) and isinstance(e.value, str) else None
 
 
-def _const_strs(prog, fi, e):
-    """Set of constant strings of a tuple/list/set display (possibly via a local or module constant)."""
-    e = resolve_local(fi.node, e)
-    if isinstance(e, ast.Name):
-        try:
-            e = prog.module_const(fi.module.name, e.id)
-        except AnalysisError:
-            return None
-    if isinstance(e, (ast.Tuple, ast.List, ast.Set)):
-        vals = [_const_str(x) for x in e.elts]
-        if all(v is not None for v in vals):
-            return set(vals)
-    if isinstance(e, ast.Call) and chain(e.func) in ("frozenset", "set", "tuple", "list") and len(e.args) == 1:
-        return _const_strs(prog, fi, e.args[0])
-    return None
-
-
 class Sanitiser:
     """Shape of request_to_localpath: result R = self.root / J, J = "/".join(P), P = <request>.opt.uri_path."""
 
@@ -494,301 +566,20 @@ class Sanitiser:
         ctx = self.ctx
         ctx.need(v is not None, "request_to_localpath returns no value")
         Rx, _ = self._strip(v)
+        if (isinstance(Rx, ast.Call) and isinstance(Rx.func, ast.Attribute) and Rx.func.attr == "joinpath" and chain(Rx.func.value) == "self.root"
+                and len(Rx.args) == 1 and isinstance(Rx.args[0], ast.Starred) and not Rx.keywords):
+            # root.joinpath(*components) == root / "/".join(components) for every path the guards let through
+            P = resolve_local(self.fi.node, Rx.args[0].value)
+            return {"R": Rx, "J": None, "P": P, "Jsrc": None, "Psrc": Rx.args[0].value, "kind": "joinpath"}
         b = match("self.root / $j", Rx)
         ctx.need(b is not None, "returned value %s is not of the form self.root / <joined components>" % stmt_text(Rx, 80))
         J = resolve_local(self.fi.node, b["j"])
         jb = match("$s.join($p)", J)
         ctx.need(jb is not None and _const_str(jb["s"]) == "/", "joined value %s is not '/'.join(<components>)" % stmt_text(J, 80))
         P = resolve_local(self.fi.node, jb["p"])
-        return {"R": Rx, "J": J, "P": P, "Jsrc": b["j"], "Psrc": jb["p"]}
-
-    # value identity up to single-assignment locals
-    def _same(self, e, ref):
-        return dump(resolve_local(self.fi.node, e)) == dump(ref)
-
-    def is_P(self, sh, e):
-        return self._same(e, sh["P"])
-
-    def is_J(self, sh, e):
-        return self._same(e, sh["J"])
-
-    def R_like(self, sh, e):
-        """(is the result, resolved?) -- looks through str()/.resolve()/.absolute()"""
-        resolved = False
-        for _ in range(6):
-            e = resolve_local(self.fi.node, e)
-            if dump(e) == dump(sh["R"]):
-                return True, resolved
-            if isinstance(e, ast.Call) and chain(e.func) in WRAPPERS and len(e.args) == 1:
-                e = e.args[0]
-            elif isinstance(e, ast.Call) and isinstance(e.func, ast.Attribute) and e.func.attr in SAME_PATH_METHODS and not e.args:
-                resolved = resolved or e.func.attr == "resolve"
-                e = e.func.value
-            else:
-                return False, False
-        return False, False
-
-    def root_like(self, e):
-        resolved = False
-        for _ in range(6):
-            e = resolve_local(self.fi.node, e)
-            if chain(e) == "self.root":
-                return True, resolved
-            if isinstance(e, ast.Call) and chain(e.func) in WRAPPERS and len(e.args) == 1:
-                e = e.args[0]
-            elif isinstance(e, ast.Call) and isinstance(e.func, ast.Attribute) and e.func.attr in SAME_PATH_METHODS and not e.args:
-                resolved = resolved or e.func.attr == "resolve"
-                e = e.func.value
-            else:
-                return False, False
-        return False, False
-
-    # ---- per-element predicates ---------------------------------------
-    def elem_facts(self, e, pol, var):
-        """Facts about every element `var` given that predicate e has truth value pol:
-        'slash' (contains no '/'), ('ne', c) (differs from constant c)."""
-        if isinstance(e, ast.BoolOp):
-            if (isinstance(e.op, ast.Or) and not pol) or (isinstance(e.op, ast.And) and pol):
-                out = set()
-                for v in e.values:
-                    out |= self.elem_facts(v, pol, var)
-                return out
-            return set()
-        if isinstance(e, ast.UnaryOp) and isinstance(e.op, ast.Not):
-            return self.elem_facts(e.operand, not pol, var)
-        if isinstance(e, ast.Name) and e.id == var:
-            return {("ne", "")} if pol else set()
-        if isinstance(e, ast.Compare) and len(e.ops) == 1:
-            op, l, r = e.ops[0], e.left, e.comparators[0]
-            isvar = lambda x: isinstance(x, ast.Name) and x.id == var
-            if isinstance(op, (ast.In, ast.NotIn)):
-                excluded = (isinstance(op, ast.In) and not pol) or (isinstance(op, ast.NotIn) and pol)
-                if not excluded:
-                    return set()
-                if isvar(r) and _const_str(l) == "/":
-                    return {"slash"}
-                if isvar(l):
-                    cs = _const_strs(self.prog, self.fi, r)
-                    if cs is not None:
-                        return {("ne", c) for c in cs}
-                return set()
-            if isinstance(op, (ast.Eq, ast.NotEq)):
-                excluded = (isinstance(op, ast.Eq) and not pol) or (isinstance(op, ast.NotEq) and pol)
-                if not excluded:
-                    return set()
-                if isvar(l) and _const_str(r) is not None:
-                    return {("ne", _const_str(r))}
-                if isvar(r) and _const_str(l) is not None:
-                    return {("ne", _const_str(l))}
-            return set()
-        if isinstance(e, ast.Call) and isinstance(e.func, ast.Attribute) and isinstance(e.func.value, ast.Name) and e.func.value.id == var:
-            if e.func.attr == "startswith" and len(e.args) == 1 and not pol:
-                c = _const_str(e.args[0])
-                if c == ".":
-                    return {("ne", "."), ("ne", "..")}
-            if e.func.attr == "count" and len(e.args) == 1 and _const_str(e.args[0]) == "/" and not pol:
-                return {"slash"}  # `if p.count("/"): raise`
-        return set()
-
-    @staticmethod
-    def _to_tags(efacts, scope):
-        tags = set()
-        if scope == "all":
-            if "slash" in efacts:
-                tags.add("slash")
-            if ("ne", ".") in efacts:
-                tags.add("dot")
-            if ("ne", "..") in efacts:
-                tags.add("dotdot")
-        if ("ne", "") in efacts and scope in ("all", "nonfinal", "first"):
-            tags.add("abs")
-        return tags
-
-    def iter_scope(self, sh, it):
-        """Which components does iterating `it` visit: 'all', 'nonfinal' (P[:-1]), 'first' (P[:1]) or None."""
-        it = resolve_local(self.fi.node, it)
-        while isinstance(it, ast.Call) and chain(it.func) in ("list", "tuple", "iter") and len(it.args) == 1:
-            it = resolve_local(self.fi.node, it.args[0])
-        if dump(it) == dump(sh["P"]):
-            return "all"
-        if isinstance(it, ast.Subscript) and isinstance(it.slice, ast.Slice) and self.is_P(sh, it.value):
-            s = it.slice
-            lo = None if s.lower is None else _int_const(s.lower)
-            hi = None if s.upper is None else _int_const(s.upper)
-            if s.step is not None or (s.lower is not None and lo is None) or (s.upper is not None and hi is None):
-                return None
-            if lo in (None, 0) and hi == -1:
-                return "nonfinal"
-            if lo in (None, 0) and hi is None:
-                return "all"
-            if lo in (None, 0) and hi is not None and hi >= 1:
-                return "first"
-        return None
-
-    def guard_facts(self, sh, e, pol):
-        """Facts (subset of slash/dot/dotdot/abs) established when atomic test e evaluates to pol.
-
-        Vocabulary:
-          any(PRED(x) for x in P|P[:-1]) is False / all(...) is True   (per-element predicates: "/" in x,
-              x in (consts), x == c, x != c, truthiness of x, x.startswith("."), and/or/not of these)
-          c in P / c in P[:-1] is False for c in "", ".", ".."          all(P[:-1]) is True
-          P[0] == "" is False / P[0] is truthy                           P is empty (everything holds vacuously)
-          len(P) <op> k leaving at most one component (no interior '/' possible, so no absolute join given (i))
-          J.startswith("/") is False, os.path.isabs(J) is False, PurePath(J).is_absolute() is False
-          R.is_relative_to(root) is True, commonpath([root, R]) == root is True, root in R.parents is True
-              (with .resolve() on both sides these also establish slash/dot/dotdot: true containment)
-        """
-        fn = self.fi.node
-        if isinstance(e, ast.Call):
-            name = chain(e.func)
-            if name in ("any", "all") and len(e.args) == 1 and not e.keywords:
-                g = e.args[0]
-                if isinstance(g, (ast.GeneratorExp, ast.ListComp)) and len(g.generators) == 1:
-                    comp = g.generators[0]
-                    if comp.ifs or comp.is_async or not isinstance(comp.target, ast.Name):
-                        return set()
-                    scope = self.iter_scope(sh, comp.iter)
-                    if scope is None:
-                        return set()
-                    if name == "any" and not pol:
-                        return self._to_tags(self.elem_facts(g.elt, False, comp.target.id), scope)
-                    if name == "all" and pol:
-                        return self._to_tags(self.elem_facts(g.elt, True, comp.target.id), scope)
-                    return set()
-                if name == "all" and pol:
-                    scope = self.iter_scope(sh, g)
-                    return {"abs"} if scope in ("all", "nonfinal", "first") else set()
-                return set()
-            # joined value
-            if isinstance(e.func, ast.Attribute) and e.func.attr == "startswith" and len(e.args) == 1 and _const_str(e.args[0]) == "/" and not pol:
-                if self.is_J(sh, e.func.value):
-                    return {"abs"}
-            if name in ("os.path.isabs", "posixpath.isabs") and len(e.args) == 1 and not pol and self.is_J(sh, e.args[0]):
-                return {"abs"}
-            if isinstance(e.func, ast.Attribute) and e.func.attr == "is_absolute" and not e.args and not pol:
-                v = e.func.value
-                if isinstance(v, ast.Call) and chain(v.func) in WRAPPERS and len(v.args) == 1 and self.is_J(sh, v.args[0]):
-                    return {"abs"}
-            # containment
-            if isinstance(e.func, ast.Attribute) and e.func.attr == "is_relative_to" and len(e.args) == 1 and pol:
-                isr, r1 = self.R_like(sh, e.func.value)
-                isroot, r2 = self.root_like(e.args[0])
-                if isr and isroot:
-                    return {"slash", "dot", "dotdot", "abs"} if (r1 and r2) else {"abs"}
-            return set()
-        if isinstance(e, ast.Compare) and len(e.ops) == 1:
-            op, l, r = e.ops[0], e.left, e.comparators[0]
-            lf = self._len_facts(sh, op, l, r, pol)
-            if lf:
-                return lf
-            if isinstance(op, (ast.In, ast.NotIn)):
-                excluded = (isinstance(op, ast.In) and not pol) or (isinstance(op, ast.NotIn) and pol)
-                c = _const_str(l)
-                if excluded and c is not None:
-                    scope = self.iter_scope(sh, r)
-                    if scope is not None:
-                        return self._to_tags({("ne", c)}, scope)
-                if isinstance(op, ast.In) and pol or isinstance(op, ast.NotIn) and not pol:
-                    # root in R.parents
-                    if isinstance(r, ast.Attribute) and r.attr == "parents":
-                        isr, r1 = self.R_like(sh, r.value)
-                        isroot, r2 = self.root_like(l)
-                        if isr and isroot:
-                            return {"slash", "dot", "dotdot", "abs"} if (r1 and r2) else {"abs"}
-                return set()
-            if isinstance(op, (ast.Eq, ast.NotEq)):
-                holds_eq = (isinstance(op, ast.Eq) and pol) or (isinstance(op, ast.NotEq) and not pol)
-                # P[0] == ""
-                for x, y in ((l, r), (r, l)):
-                    if _const_str(y) == "" and isinstance(x, ast.Subscript) and _int_const(x.slice) == 0 and self.is_P(sh, x.value):
-                        return {"abs"} if not holds_eq else set()
-                # commonpath([root, R]) == root
-                for x, y in ((l, r), (r, l)):
-                    if isinstance(x, ast.Call) and chain(x.func) in ("os.path.commonpath", "posixpath.commonpath") and len(x.args) == 1 and holds_eq:
-                        seq = resolve_local(fn, x.args[0])
-                        if isinstance(seq, (ast.List, ast.Tuple)) and len(seq.elts) == 2:
-                            for u, v in ((seq.elts[0], seq.elts[1]), (seq.elts[1], seq.elts[0])):
-                                isroot, r2 = self.root_like(u)
-                                isr, r1 = self.R_like(sh, v)
-                                isroot2, r3 = self.root_like(y)
-                                if isroot and isr and isroot2:
-                                    return {"slash", "dot", "dotdot", "abs"} if (r1 and r2 and r3) else {"abs"}
-            return set()
-        # truthiness of P itself / of its first component
-        if self.is_P(sh, e) and isinstance(e, (ast.Name, ast.Attribute)):
-            return {"slash", "dot", "dotdot", "abs"} if not pol else set()
-        if isinstance(e, ast.Subscript) and _int_const(e.slice) == 0 and self.is_P(sh, e.value):
-            return {"abs"} if pol else set()
-        return set()
-
-    def _len_facts(self, sh, op, l, r, pol):
-        """len(P) <op> k: no component at all establishes everything; at most one
-        component cannot produce an interior '/' (so, given (i), no absolute join)."""
-        import operator
-        ops = {ast.Lt: operator.lt, ast.LtE: operator.le, ast.Gt: operator.gt, ast.GtE: operator.ge, ast.Eq: operator.eq, ast.NotEq: operator.ne}
-        if type(op) not in ops:
-            return set()
-        def is_len(x):
-            return isinstance(x, ast.Call) and chain(x.func) == "len" and len(x.args) == 1 and not x.keywords and self.is_P(sh, x.args[0])
-        if is_len(l) and _int_const(r) is not None:
-            f = lambda n: ops[type(op)](n, _int_const(r))
-        elif is_len(r) and _int_const(l) is not None:
-            f = lambda n: ops[type(op)](_int_const(l), n)
-        else:
-            return set()
-        allowed = [n for n in range(0, 64) if f(n) == pol]
-        if allowed and max(allowed) == 0:
-            return {"slash", "dot", "dotdot", "abs"}
-        if allowed and max(allowed) <= 1:
-            return {"abs"}
-        return set()
-
-    def establishers(self, sh, ret_id):
-        """fact -> set of CFG nodes after which the fact holds."""
-        cfg = self.cfg
-        est = {"slash": set(), "dot": set(), "dotdot": set(), "abs": set()}
-        for n in cfg.nodes:
-            if n.kind in ("T", "F") and not isinstance(n.ast, (ast.For, ast.AsyncFor)):
-                for f in self.guard_facts(sh, n.ast, n.kind == "T"):
-                    est[f].add(n.id)
-        # explicit loops: for x in P: if PRED(x): raise
-        for n in cfg.nodes:
-            if n.kind != "for" or not isinstance(n.ast.target, ast.Name):
-                continue
-            scope = self.iter_scope(sh, n.ast.iter)
-            if scope is None:
-                continue
-            var = n.ast.target.id
-            if any(w is not n.ast for w in writes_to_name(self.fi.node, var)):
-                continue
-            t = [d for d, lab in cfg.succ[n.id] if lab == "T"]
-            f = [d for d, lab in cfg.succ[n.id] if lab == "F"]
-            if not t or not f:
-                continue
-            body = cfg.reach(set(t), avoid={n.id}, include_src=True)
-            per_fact = {"slash": set(), "dot": set(), "dotdot": set(), "abs": set()}
-            for b in body:
-                bn = cfg.nodes[b]
-                if bn.kind in ("T", "F") and not isinstance(bn.ast, (ast.For, ast.AsyncFor)):
-                    for fact in self._to_tags(self.elem_facts(bn.ast, bn.kind == "T", var), scope):
-                        per_fact[fact].add(b)
-            for fact, nodes in per_fact.items():
-                # the next iteration (and the loop exit) is only reached through one of `nodes`
-                if nodes and n.id not in cfg.reach(set(t), avoid=nodes, include_src=True):
-                    est[fact] |= set(f)
-        # try: R.relative_to(root) except ValueError: raise
-        for call, b in find("$r.relative_to($root)", self.fi.node):
-            isr, r1 = self.R_like(sh, b["r"])
-            isroot, r2 = self.root_like(b["root"])
-            if not (isr and isroot):
-                continue
-            for nid in cfg.locate(call):
-                hs = [d for d, lab in cfg.succ[nid] if lab == "exc" and d != cfg.rexit]
-                if ret_id in cfg.reach(set(hs), include_src=True):
-                    continue  # a handler swallows the failure
-                for fact in ({"slash", "dot", "dotdot", "abs"} if (r1 and r2) else {"abs"}):
-                    est[fact].add(nid)
-        return est
+        while isinstance(P, ast.Call) and chain(P.func) in ("list", "tuple") and len(P.args) == 1 and not P.keywords:
+            P = resolve_local(self.fi.node, P.args[0])
+        return {"R": Rx, "J": J, "P": P, "Jsrc": b["j"], "Psrc": jb["p"], "kind": "join"}
 
 
 def _int_const(e):
@@ -799,6 +590,13 @@ def _int_const(e):
     return None
 
 
+def _num_const(e):
+    """integer value of a constant, True/False counting as 1/0 (the `more` field of a block descriptor)"""
+    if isinstance(e, ast.Constant) and isinstance(e.value, bool):
+        return int(e.value)
+    return _int_const(e)
+
+
 EXCLUSIONS = [
     ("slash", "(i) a component containing '/' never reaches the join"),
     ("dot", "(ii) the component '.' never reaches the join"),
@@ -806,37 +604,125 @@ EXCLUSIONS = [
     ("abs", "(iv) the join cannot be absolute (empty leading/non-final component, absolute joined value or result outside self.root is rejected)"),
 ]
 
+# Scenarios of C19.b.  The Uri-Path is a symbolic sequence with ONE distinguished component $e of the excluded kind
+# at a given position; every other component ($g..) is an unconstrained string, and the stretches between them have
+# unknown length.  The clause holds when the `return` is unreachable under every scenario of the exclusion.
+#   position           sequence
+#   first & final      ($e,)
+#   first & non-final  ($e, *$g1.., $g9)
+#   later & final      ($g8, *$g1.., $e)
+#   later & non-final  ($g8, *$g1.., $e, *$g2.., $g9)
+# An absolute join arises exactly from an empty *leading* component followed by at least one more (a component
+# starting with "/" is covered by (i)), so (iv) has the single scenario first & non-final with $e == "".
+# "Result inside the root" tests (is_relative_to / relative_to / commonpath / parents) are answered for the harmful
+# instance of the scenario: lexically, an absolute join lies outside the root (False) while '.', '..' stay inside
+# (True; PurePath does not collapse '..') and a component with '/' may or may not (free); after resolve() on both
+# sides every harmful instance lies outside (False).
+_POSITIONS = {
+    "first&final": lambda e: [("one", e)],
+    "first&nonfinal": lambda e: [("one", e), ("many", 1), ("one", kit.N("$g9"))],
+    "later&final": lambda e: [("one", kit.N("$g8")), ("many", 1), ("one", e)],
+    "later&nonfinal": lambda e: [("one", kit.N("$g8")), ("many", 1), ("one", e), ("many", 2), ("one", kit.N("$g9"))],
+}
+_KIND = {
+    "slash": dict(value=None, contain={"lex": None, "res": False}, what="a component containing '/'"),
+    "dot": dict(value=".", contain={"lex": True, "res": False}, what="the component '.'"),
+    "dotdot": dict(value="..", contain={"lex": True, "res": False}, what="the component '..'"),
+    "abs": dict(value="", contain={"lex": False, "res": False}, what="an empty leading component"),
+}
+_WITNESSES = {
+    "slash": [("a/b",), ("x", "a/b"), ("a/b", "x"), ("x", "a/b", "y"), ("/etc",), ("x", "/etc", "y"), ("b/",), ("../x",)],
+    "dot": [(".",), ("x", "."), (".", "x"), ("x", ".", "y")],
+    "dotdot": [("..",), ("x", ".."), ("..", "x"), ("x", "..", "y")],
+    "abs": [("", "etc", "hostname"), ("", "x"), ("", "etc", "")],
+}
+
+
+def _b_symbolic(uri_chain, tag):
+    kind = _KIND[tag]
+    for pos in (["first&nonfinal"] if tag == "abs" else sorted(_POSITIONS)):
+        e = kit.N("$e")
+        bind = lambda c_, ch=uri_chain: kit.N("$P") if c_ == ch else None
+        yield kit.Scenario("%s@%s" % (tag, pos), bind=bind, seqs={"$P": _POSITIONS[pos](e)},
+                           cenv={} if kind["value"] is None else {"$e": kind["value"]},
+                           slash={"$e"} if kind["value"] is None else (), tainted={"$P", "$e"}, contain=kind["contain"],
+                           taint_mutated=True, taint_through_calls=True,
+                           describe="%s in %s position" % (kind["what"], pos.replace("&", ", ")))
+
+
+def _b_concrete(uri_chain, tag):
+    for w in _WITNESSES[tag]:
+        bind = lambda c_, ch=uri_chain: kit.N("$P") if c_ == ch else None
+        yield kit.Scenario("%s@%r" % (tag, w), bind=bind, seqs={"$P": [("one", kit.K(x, taint=True)) for x in w]}, cenv={"$P": w},
+                           tainted={"$P"}, contain=_KIND[tag]["contain"], taint_mutated=True, taint_through_calls=True,
+                           describe="Uri-Path %r" % (w,))
+
+
+def _b_reach(prog, ci, fi, ret_id, scenarios):
+    """[(scenario, state)] for the states in which the return is reached, certain ones first"""
+    certain, uncertain = [], []
+    for sc in scenarios:
+        sx = kit.SX(prog, ci, sc)
+        sx.run(fi)
+        for st, depth, stack in sx.visits.get((fi.qn, ret_id), []):
+            if depth == 0:
+                (uncertain if st.uncertain() else certain).append((sc, st))
+    return certain, uncertain
+
 
 @R.clause("C19.b", "request_to_localpath returns self.root / '/'.join(uri_path) behind guards excluding '/', '.', '..' and an absolute join")
 def b(ctx):
+    """The four exclusions are decided by symbolic execution of the sanitiser (with the helpers it calls) on a
+    Uri-Path that contains a component of the excluded kind: the property clause holds iff the `return` cannot be
+    reached.  How the rejection is spelled is immaterial: any()/all() over a generator, a loop (with or without
+    enumerate, with a flag or a raise), a helper predicate with several returns, `c in path[:-1]`, set
+    intersection, tests on the joined string (startswith / isabs / is_absolute) or on the result (is_relative_to,
+    relative_to in a try, parents).  `assert` is not a branch.  A violation is only reported when the return is
+    reached on a path none of whose decisions the executor failed to interpret -- or, failing that, when the
+    checker's own evaluator carries a concrete witness path (e.g. ('', 'etc', 'hostname')) through to the return;
+    otherwise the clause refuses (analysis error)."""
     S = Sanitiser(ctx)
     fi, cfg = S.fi, S.cfg
+    prog = ctx.prog
+    ci = prog.cls(FS)
+    uri_chain = "%s.opt.uri_path" % S.req
     for r in S.rets:
         sh = S.shapes[r.id]
-        ctx.ob("the joined components are the request's Uri-Path", chain(sh["P"]) == "%s.opt.uri_path" % S.req and not writes_to_name(fi.node, S.req),
+        ctx.ob("the joined components are the request's Uri-Path", chain(sh["P"]) == uri_chain and not writes_to_name(fi.node, S.req),
                fi, r.ast, detail="components: %s" % stmt_text(sh["P"], 80))
-        est = S.establishers(sh, r.id)
         for tag, desc in EXCLUSIONS:
-            nodes = est[tag]
-            ok = bool(nodes) and r.id not in cfg.reach({cfg.entry}, avoid=nodes)
+            if tag == "abs" and sh["kind"] == "joinpath":
+                # root.joinpath(*components) ignores empty components; it is absolute only if a component starts
+                # with "/", which (i) excludes
+                ctx.ob(desc, True, fi, r.ast, detail="joinpath(*components): absolute only through a component with '/', see (i)")
+                continue
+            certain, uncertain = _b_reach(prog, ci, fi, r.id, _b_symbolic(uri_chain, tag))
             witness = None
-            if not ok and tag == "abs":
-                witness = "no guard from the accepted idioms; e.g. Uri-Path ('', 'etc', 'hostname') joins to '/etc/hostname' and self.root / '/etc/hostname' is absolute"
-            elif not ok:
-                witness = "no dominating guard from the accepted idioms establishes this exclusion"
-            ctx.ob(desc, ok, fi, r.ast, detail=witness)
+            if not certain and uncertain:
+                c2, u2 = _b_reach(prog, ci, fi, r.id, _b_concrete(uri_chain, tag))
+                if c2:
+                    certain = c2
+                else:
+                    sc, st = uncertain[0]
+                    raise AnalysisError("request_to_localpath: cannot decide whether %s reaches the join: the test `%s` is outside the rule's vocabulary"
+                                        % (sc.describe, "`, `".join(st.uncertain()[:2])))
+            if certain:
+                sc, st = certain[0]
+                witness = "%s passes every guard on the path [%s]" % (sc.describe, st.describe(8))
+                if tag == "abs":
+                    witness += "; e.g. Uri-Path ('', 'etc', 'hostname') joins to '/etc/hostname' and self.root / '/etc/hostname' is absolute"
+            ctx.ob(desc, not certain, fi, r.ast, detail=witness)
 
 
 # ---------------------------------------------------------------------------
-# C19.c
-
-
-def _is_write_flag(e):
-    return chain(e) == "self.write"
-
-
-def _write_guarded(cfg, nid):
-    return any(_is_write_flag(e) and pol for e, pol, _ in cfg.guards(nid))
+# C19.c / C19.f: reachability of the mutating sinks under a scenario
+#
+# Both clauses have the form "a mutating sink is executed only when C holds" (C = the server was started with write
+# permission / the Uri-Path is not empty).  They are decided by running the symbolic executor of _kit_c19 over the
+# methods of the class under the scenario "C is false" (self.write is the default False / the Uri-Path is ()) and
+# asking whether a sink is reachable.  That is the contrapositive of the old "a branch outcome establishing C
+# dominates the sink", but it does not depend on where and how the test is spelled: guard clause or nested if, test
+# in a helper that returns a refusal or a boolean, De Morgan forms, a hoisted local, len()/==()/truthiness.
 
 
 def _code_name(e):
@@ -845,8 +731,11 @@ def _code_name(e):
 
 
 def _exc_class_qn(prog, fi, e):
-    """Qualified class of the expression raised (`X(...)` or `X`)."""
-    if isinstance(e, ast.Call):
+    """Qualified class of the expression raised (`X(...)` or `X`), also for the executor's symbolic values."""
+    p = kit.opaque_parts(e)
+    if p is not None:
+        e = p[0]
+    elif isinstance(e, ast.Call):
         e = e.func
     txt = chain(e)
     if not txt:
@@ -878,54 +767,187 @@ def _responds_with(prog, fi, node, codes_ok):
     return False
 
 
+def _outcome_responds_with(prog, fi, kind, val, codes_ok):
+    """Same for an outcome of the symbolic executor: ('return', value) / ('raise', exception value)."""
+    if val is None:
+        return False
+    if kind == "return":
+        p = kit.opaque_parts(val)
+        if p is None:
+            return False
+        code = next((k.value for k in p[2] if k.arg == "code"), None)
+        return code is not None and _code_name(code) in codes_ok
+    q = _exc_class_qn(prog, fi, val)
+    return q is not None and _is_renderable(prog, q) and _class_code(prog, q) in codes_ok
+
+
+class Reach:
+    """Entry points of the class, its mutating sinks, and reachability of the sinks under scenarios."""
+
+    def __init__(self, prog, fl=None):
+        self.prog = prog
+        self.fl = fl or Flow(prog)
+        fl = self.fl
+        self.sinks = []  # (fi, scope, call, label)
+        for fi in fl.funcs:
+            if _is_sanitiser(fi):
+                continue
+            for scope in _scopes(fi):
+                for call, paths, mut, label in fl.sinks(scope):
+                    if mut:
+                        self.sinks.append((fi, scope, call, label, "sink"))
+                for call in fl.file_writes(scope):
+                    self.sinks.append((fi, scope, call, ".%s() on a file object" % call.func.attr, "filewrite"))
+        # functions from which a mutating sink can be reached through calls inside the class
+        has = {fi.qn for fi, *_ in self.sinks}
+        changed = True
+        while changed:
+            changed = False
+            for fi in fl.funcs:
+                if fi.qn in has:
+                    continue
+                for n in ast.walk(fi.node):
+                    if isinstance(n, ast.Attribute) and isinstance(n.value, ast.Name) and n.attr in fl.ci.methods and fl.ci.methods[n.attr].qn in has:
+                        has.add(fi.qn)
+                        changed = True
+                        break
+                    if isinstance(n, (ast.FunctionDef, ast.AsyncFunctionDef)) and n is not fi.node and any(f.node is n and f.qn in has for f in fl.funcs):
+                        has.add(fi.qn)
+                        changed = True
+                        break
+        self.entries = [fi for fi in fl.funcs if fi.qn in has and not _is_sanitiser(fi)]
+        self.base = self.run(None)
+        # A method is *internal* when it is used inside the class (called, handed over as a callable, referenced) and
+        # every call was stepped into by the executor: it then only runs in the contexts of those uses.
+        self.internal = set()
+        self.refs = {}
+        for fi in self.entries:
+            if fi.cls is None:
+                continue
+            sites = fl.call_sites(fi.name)
+            self.refs[fi.qn] = fl.bare_refs(fi.name)
+            if (sites or self.refs[fi.qn]) and all(id(getattr(cs, "_site", cs)) in self.base.inlined_sites and id(getattr(cs, "_site", cs)) not in self.base.refused_sites
+                                                   for _, cs in sites):
+                self.internal.add(fi.qn)
+
+    def run(self, scenario):
+        sx = kit.SX(self.prog, self.fl.ci, scenario)
+        sx.outcomes = {}
+        for fi in self.entries:
+            sx.outcomes[fi.qn] = sx.run(fi)
+        return sx
+
+    def node_visits(self, sx, fi, node, depth=0):
+        """states in which the construct `node` of function fi is executed.  Visits made while stepping in from a
+        caller always count; visits of the run of fi as an entry point count when fi can start from outside or
+        from a live creation/reference point (a closure or lambda only runs after the statement creating it, a
+        method reference only after the expression taking it)."""
+        out = []
+        own = []
+        for nid in cfg_of(fi).locate(node):
+            for st, d, stack in sx.visits.get((fi.qn, nid), []):
+                (own if d == 0 else out).append((st, stack))
+        if own and depth < 6:
+            live = self.live(sx, fi, depth + 1)
+            if live is True:
+                out.extend(own)
+            elif live:
+                if all(st.uncertain() for st, _ in live):
+                    own = [(st.flag(*["uncertain:" + u for u in live[0][0].uncertain()]), stack) for st, stack in own]
+                out.extend(own)
+        return out
+
+    def live(self, sx, fi, depth):
+        """True (entered from outside the class), or the states of the points at which fi comes into being"""
+        if fi.parent is not None:
+            return self.node_visits(sx, fi.parent, fi.node, depth)
+        if fi.qn not in self.internal:
+            return True
+        out = []
+        for scope, ref in self.refs.get(fi.qn, []):
+            out.extend(self.scope_visits(sx, scope, ref, depth))
+        return out
+
+    def scope_visits(self, sx, scope, node, depth=0):
+        """like node_visits for a construct inside a lambda: it runs only after the lambda has been created"""
+        if scope.lam is not None:
+            return self.node_visits(sx, scope.fi, scope.lam, depth)
+        return self.node_visits(sx, scope.fi, node, depth)
+
+    def visits(self, sx, fi, call, scope=None):
+        if scope is not None:
+            return self.scope_visits(sx, scope, call)
+        return self.node_visits(sx, fi, call)
+
+    def external_entries(self):
+        return [fi for fi in self.entries if fi.qn not in self.internal and fi.parent is None]
+
+    def reaches_sink(self, sx, entry):
+        """does the run of `entry` (as entry point) visit a mutating sink"""
+        for fi, scope, call, label, kind in self.sinks:
+            node = scope.lam if scope.lam is not None else call
+            for nid in cfg_of(fi).locate(node):
+                for st, depth, stack in sx.visits.get((fi.qn, nid), []):
+                    root = stack[0][0] if stack else fi.qn
+                    if root == entry.qn:
+                        return True
+        return False
+
+
+def _check_unreachable(ctx, R_, sxs, desc_fmt, kinds=("sink", "filewrite")):
+    """One obligation per mutating sink: it is not executed under any of the scenario runs `sxs` = [(sx, why)]."""
+    n = 0
+    for fi, scope, call, label, kind in R_.sinks:
+        if kind not in kinds:
+            continue
+        n += 1
+        detail = None
+        for sx, why in sxs:
+            vs = R_.visits(sx, fi, call, scope)
+            certain = [(st, stack) for st, stack in vs if not st.uncertain()]
+            if vs and not certain:
+                raise AnalysisError("%s: whether %s is reached %s depends on a test the rule cannot interpret: %s"
+                                    % (fi.short, stmt_text(call, 60), why, "; ".join(sorted({u for st, _ in vs for u in st.uncertain()})[:3])))
+            if certain:
+                st, stack = certain[0]
+                detail = "reached %s on the path [%s]%s" % (why, st.describe(), (" (entered from %s)" % stack[0][0].split(".")[-1]) if stack else "")
+                break
+        ctx.ob(desc_fmt % label, detail is None, fi, call, detail=detail)
+    return n
+
+
 @R.clause("C19.c", "every mutating sink is dominated by the self.write test whose failing side answers 4.03")
 def c(ctx):
     prog = ctx.prog
     fl = Flow(prog)
-    n = 0
-    guarded_methods = {}
-    for fi in fl.funcs:
-        if _is_sanitiser(fi):
-            continue
-        for scope in _scopes(fi):
-            muts = [(call, label) for call, paths, mut, label in fl.sinks(scope) if mut]
-            muts += [(call, ".%s() on a file object" % call.func.attr) for call in fl.file_writes(scope)]
-            for call, label in muts:
-                n += 1
-                if scope.lam is not None:
-                    ctx.ob("mutating operation %s is dominated by the self.write test" % label, False, fi, call, detail="inside a lambda: not dominated by any test")
-                    continue
-                cfg = cfg_of(fi)
-                ok = all(_write_guarded(cfg, nid) for nid in cfg.locate(call)) and bool(cfg.locate(call))
-                how = "guard in the same function"
-                if not ok and fi.cls is not None:
-                    # one level: a helper all of whose call sites are guarded
-                    sites = fl.call_sites(fi.name)
-                    ok = bool(sites) and all(
-                        s.lam is None and cfg_of(s.fi).locate(cs) and all(_write_guarded(cfg_of(s.fi), x) for x in cfg_of(s.fi).locate(cs))
-                        for s, cs in sites)
-                    how = "guard at all %d call site(s) of %s" % (len(sites), fi.name)
-                    for s, cs in sites:
-                        guarded_methods.setdefault(s.fi.qn, s.fi)
-                else:
-                    guarded_methods.setdefault(fi.qn, fi)
-                ctx.ob("mutating operation %s is dominated by the self.write test" % label, ok, fi, call, detail=how if ok else "no dominating `self.write` outcome")
+    R_ = Reach(prog, fl)
+    # Read-only configurations: self.write holds the default of the constructor's parameter (False, which is also what
+    # the command line passes without --write) or any other falsy value an embedding application may pass (None, 0).
+    # Requiring unreachability for each of them is the old "a branch on the *truth* of self.write dominates the sink":
+    # `if self.write is None` / `is False` style tests let some falsy value through and are reported.
+    default = _write_default(prog, fl)
+    ctx.need(default is not None and not default, "cannot determine the read-only value of self.write from FileServer.__init__")
+    values = [default] + [v for v in (False, None, 0) if not any(v is w or (type(v) is type(w) and v == w) for w in [default])]
+    runs = []
+    for v in values:
+        sc = kit.Scenario("write", bind=lambda c_, v=v: kit.K(v, taint=True) if _is_self_write(c_) else None)
+        runs.append((R_.run(sc), "without write permission (self.write == %r)" % (v,)))
+    n = _check_unreachable(ctx, R_, runs, "mutating operation %s is dominated by the self.write test")
     ctx.floor("mutating sinks in FileServer", n, 5)
 
-    # the failing side of the test answers 4.03 Forbidden and nothing else
+    # once the write flag has been consulted, the read-only side answers 4.03 Forbidden and nothing else
     tests = 0
-    for fi in guarded_methods.values():
-        cfg = cfg_of(fi)
-        for nd in cfg.nodes:
-            if nd.kind == "F" and _is_write_flag(nd.ast) and cfg.is_reachable(nd.id):
-                tests += 1
-                reach = cfg.reach({nd.id}, skip_labels=("exc",))
-                exits = [cfg.nodes[x] for x in reach if cfg.nodes[x].kind in ("return", "raise")]
-                falls = cfg.exit in cfg.reach({nd.id}, avoid={x.id for x in exits}, skip_labels=("exc",))
-                ok = bool(exits) and not falls and all(_responds_with(prog, fi, x.ast, {"FORBIDDEN"}) for x in exits)
-                ctx.ob("without write permission the method answers 4.03 Forbidden", ok, fi, nd.ast,
-                       construct="%s: not self.write" % fi.name,
-                       detail="exits on the read-only side: %s" % "; ".join(stmt_text(x.ast, 60) for x in exits))
+    for fi in R_.external_entries():
+        if not R_.reaches_sink(R_.base, fi):
+            continue
+        outs = [(k, v, st) for sx, _ in runs for k, v, st in sx.outcomes[fi.qn] if "used:write" in st.flags and "via_exc" not in st.flags]
+        if not outs:
+            continue
+        tests += 1
+        ok = all(_outcome_responds_with(prog, fi, k, v, {"FORBIDDEN"}) for k, v, st in outs)
+        ctx.ob("without write permission the method answers 4.03 Forbidden", ok, fi, fi.node,
+               construct="%s: not self.write" % fi.name,
+               detail="exits on the read-only side: %s" % "; ".join(sorted({"%s %s" % (k, _short_val(v)) for k, v, st in outs})))
     ctx.floor("self.write tests in mutating methods", tests, 1)
 
     # self.write is configuration: assigned in __init__ only
@@ -938,12 +960,60 @@ def c(ctx):
         ctx.ob("self.write is assigned only in __init__", fi.name == "__init__" and fi.cls is not None, fi, node)
 
 
+def _is_self_write(c_):
+    return c_ == "self.write"
+
+
+def _plain(v):
+    """text of a symbolic value without the executor's program-point markers (stable finding keys)"""
+    import re
+    t = stmt_text(v, 400)
+    t = re.sub(r"\$(call|await|read)@[^(]*\(", "(", t)
+    t = re.sub(r"\$\w+@[\w.<>]*:\d+:\w+", "<value>", t)
+    return t if len(t) <= 140 else t[:137] + "..."
+
+
+def _short_val(v):
+    if v is None:
+        return "<exception>"
+    p = kit.opaque_parts(v)
+    if p is not None:
+        return "%s(%s)" % (stmt_text(p[0], 40), ", ".join("%s=%s" % (k.arg, stmt_text(k.value, 30)) for k in p[2]))
+    return stmt_text(v, 60)
+
+
+def _write_default(prog, fl):
+    """The value self.write has unless the application passes something else: the default of the __init__
+    parameter it is assigned from (evaluated by the checker's own evaluator)."""
+    init = fl.ci.methods.get("__init__")
+    if init is None:
+        return None
+    vals = [n.value for k_, n in stores_to(init.node, "self.write") if isinstance(n, ast.Assign)]
+    if len(vals) != 1:
+        return None
+    v = resolve_local(init.node, vals[0])
+    if isinstance(v, ast.Name):
+        sc = Scope(init)
+        is_param, d = sc.param_default(v.id)
+        if is_param and d is not None and not writes_to_name(init.node, v.id):
+            v = d
+    try:
+        return kit.ceval(v)
+    except (kit.Unk, kit.CRaise):
+        return None
+
+
 # ---------------------------------------------------------------------------
 # C19.d
 
 
 @R.clause("C19.d", "render_get_file: seek(block.start), read(block.size+1), more iff len(data) > block.size, payload data[:block.size], Block2 (number, more, szx)")
 def d(ctx):
+    """Decided on the states of the symbolic executor: in every state in which the file is read / the response is
+    built, the *values* (syntax trees over the request, with locals, conditional expressions, `a or b` defaults and
+    constructor fields resolved) are compared by normal form.  Which local holds the descriptor, whether the default
+    is chosen by `or`, a conditional expression or an `if`, whether size/more are hoisted into locals, and whether
+    the answer descriptor is built and then reset to None or only built when needed, makes no difference."""
     prog = ctx.prog
     fi = prog.func(FS + ".render_get_file")
     cfg = cfg_of(fi)
@@ -963,9 +1033,10 @@ def d(ctx):
     ctx.floor("with <path>.open(...) as f in render_get_file", len(opens), 1)
     ctx.need(len(opens) == 1, "render_get_file opens %d files; the rule expects one" % len(opens))
     wnode, ocall, fvar = opens[0]
-    ctx.ob("the file opened is the path parameter", isinstance(ocall.func.value, ast.Name) and ocall.func.value.id == path and not writes_to_name(fn, path), fi, ocall)
+    opened = resolve_local(fn, ocall.func.value)
+    ctx.ob("the file opened is the path parameter", isinstance(opened, ast.Name) and opened.id == path and not writes_to_name(fn, path), fi, ocall)
     mode = ocall.args[0] if ocall.args else next((k.value for k in ocall.keywords if k.arg == "mode"), None)
-    mv = _const_str(mode) if mode is not None else None
+    mv = _const_str(resolve_local(fn, mode)) if mode is not None else None
     ctx.ob("the file is opened read-only in binary mode", mv is not None and "b" in mv and "r" in mv and not any(c in mv for c in "wax+"), fi, ocall, detail="mode %r" % mv)
 
     seeks = [c for c, _ in find("%s.seek($*a)" % fvar, fn)]
@@ -974,112 +1045,165 @@ def d(ctx):
     ctx.floor("read calls on the file", len(reads), 1)
     ctx.ob("exactly one seek and one read per request", len(seeks) == 1 and len(reads) == 1, fi, reads[-1], detail="%d seek(s), %d read(s)" % (len(seeks), len(reads)))
     seek, read = seeks[0], reads[0]
-
-    # the block descriptor B
     ctx.need(len(seek.args) >= 1, "seek without offset")
-    off = resolve_local(fn, seek.args[0])
-    Bname = None
-    if isinstance(off, ast.Attribute) and isinstance(off.value, ast.Name):
-        Bname = off.value.id
-    else:
-        # find it through the read size instead
-        for nm in names_in(read) - {fvar}:
-            Bname = nm
-    ctx.need(Bname is not None, "cannot identify the block descriptor used by seek/read")
-    Bval = assigned_value(fn, Bname)
-    ctx.need(Bval is not None, "block descriptor %s is not a single-assignment local" % Bname)
-    # B = <req>.opt.block2 or BlockwiseTuple(0, 0, szx)
-    ok_src = False
-    default = None
-    if isinstance(Bval, ast.BoolOp) and isinstance(Bval.op, ast.Or) and len(Bval.values) == 2:
-        ok_src = chain(Bval.values[0]) == "%s.opt.block2" % req
-        default = Bval.values[1]
-    elif isinstance(Bval, ast.IfExp):
-        ok_src = chain(Bval.body) == "%s.opt.block2" % req and req + ".opt.block2" in stmt_text(Bval.test)
-        default = Bval.orelse
-    elif chain(Bval) == "%s.opt.block2" % req:
-        ok_src, default = True, None
-    ctx.ob("the block descriptor is the request's Block2 option (or a default)", ok_src, fi, Bval)
-    if default is not None:
-        isbt = isinstance(default, ast.Call) and (chain(default.func) or "").endswith("BlockwiseTuple") and len(default.args) == 3
-        ctx.ob("the default descriptor starts at block 0", isbt and _int_const(default.args[0]) == 0 and _int_const(default.args[2]) is not None and 0 <= _int_const(default.args[2]) <= 6,
-               fi, default)
+    sn, rn = cfg.loc1(seek), cfg.loc1(read)
+    ctx.ob("the seek precedes the read on every path", cfg.dominates(sn, rn) and sn != rn and sn not in cfg.reach({rn}), fi, read)
 
-    N = Normalizer(env=norm.local_env(fn))
-    size = Poly.atom(Bname + ".size")
-    start = Poly.atom(Bname + ".start")
+    fl = Flow(prog)
+    sx = kit.SX(prog, fl.ci, None)
+    outcomes = sx.run(fi)
+    N_ = Normalizer()
 
     def poly(e):
         try:
-            return N.poly(e)
-        except norm.NormError:
+            return N_.poly(e) if e is not None else None
+        except (norm.NormError, AnalysisError):
             return None
 
-    ctx.ob("the read position is block.start", len(seek.args) == 1 and poly(seek.args[0]) == start and (not seek.keywords), fi, seek, detail="offset = %r" % poly(seek.args[0]))
-    ctx.ob("one byte more than the block size is read", len(read.args) == 1 and poly(read.args[0]) == size + Poly.const(1), fi, read,
-           detail="length = %r" % (poly(read.args[0]) if read.args else None))
-    sn, rn = cfg.loc1(seek), cfg.loc1(read)
-    ctx.ob("the seek precedes the read on every path", cfg.dominates(sn, rn) and sn != rn and sn not in cfg.reach({rn}), fi, read)
-    # data = f.read(..)
-    rstmt = cfg.nodes[rn].ast
-    dvar = rstmt.targets[0].id if isinstance(rstmt, ast.Assign) and len(rstmt.targets) == 1 and isinstance(rstmt.targets[0], ast.Name) and rstmt.value is read else None
-    ctx.need(dvar is not None, "the result of read() is not bound to a local")
-    ctx.ob("the data read is not modified afterwards", len(writes_to_name(fn, dvar)) == 1, fi, rstmt)
+    def attr(b, name):
+        return sx.simplify(ast.Attribute(value=b, attr=name, ctx=ast.Load()))
 
-    # answer option: BlockwiseTuple(B.block_number, len(data) > B.size, B.size_exponent)
-    N2 = Normalizer()  # do not substitute `data`
-    tuples = [c for c in calls_in(fn) if (chain(c.func) or "").endswith("BlockwiseTuple") and c is not default]
-    ctx.floor("answer Block2 descriptors", len(tuples), 1)
-    want_more = ("lt", Poly.atom(Bname + ".size") - Poly.atom("len(%s)" % dvar))
-    outnames = set()
-    for t in tuples:
-        ok3 = len(t.args) == 3 and not t.keywords
-        ctx.need(ok3, "BlockwiseTuple built with unexpected arity")
-        ctx.ob("the answer carries the requested block number", chain(t.args[0]) == Bname + ".block_number", fi, t)
-        try:
-            got = N2.cmp(t.args[1])
-        except norm.NormError:
-            got = None
-        ctx.ob("more is set exactly when more than block.size bytes could be read", got == want_more, fi, t, detail="more = %s" % stmt_text(t.args[1], 60))
-        ctx.ob("the answer carries the requested size exponent", chain(t.args[2]) == Bname + ".size_exponent", fi, t)
-        st = cfg.nodes[cfg.loc1(t)].ast
-        if isinstance(st, ast.Assign) and len(st.targets) == 1 and isinstance(st.targets[0], ast.Name):
-            outnames.add(st.targets[0].id)
+    def is_bt(v):
+        return (getattr(v, "_cls", None) or "").endswith(".BlockwiseTuple")
 
-    # the response message
+    def bt_args(v):
+        """the three fields of a constructed descriptor (positional or keyword), else None"""
+        pr_ = kit.opaque_parts(v)
+        fields = getattr(v, "_ntfields", None)
+        if pr_ is None or not is_bt(v) or not fields or len(fields) != 3:
+            return None
+        vals = dict(zip(fields, pr_[1]))
+        for kw_ in pr_[2]:
+            if kw_.arg not in fields or kw_.arg in vals:
+                return None
+            vals[kw_.arg] = kw_.value
+        return [vals[f] for f in fields] if len(vals) == 3 and len(pr_[1]) <= 3 else None
+
+    def descriptor_of(off):
+        """the descriptor B with off == B.start (spelled as the property or as B.block_number * B.size)"""
+        if off is None:
+            return None
+        if isinstance(off, ast.Attribute) and off.attr == "start":
+            return off.value
+        po = poly(off)
+        for n_ in ast.walk(off):
+            if isinstance(n_, ast.Attribute) and n_.attr in ("block_number", "size") and po is not None:
+                X = n_.value
+                want_ = poly(ast.BinOp(left=attr(X, "block_number"), op=ast.Mult(), right=attr(X, "size")))
+                if want_ is not None and want_ == po:
+                    return X
+        return None
+
+    def kwargs_of(pr_):
+        """keywords of a constructed message; `m.opt.x = v` / `m.x = v` after construction count like `x=v`"""
+        out_ = {}
+        for kw_ in pr_[2]:
+            if kw_.arg is not None:
+                out_[kw_.arg[4:] if kw_.arg.startswith("opt.") else kw_.arg] = kw_.value
+        return out_
+
+    # --- the read: position and length, per state --------------------------------------------------
+    rstates = [st for st, depth, stack in sx.visits.get((fi.qn, rn), []) if depth == 0]
+    ctx.need(rstates, "the read is not reachable in render_get_file")
+    descriptors = {}
+    bad_seek = bad_len = None
+    for st in rstates:
+        off = sx.peek(fi, sn, seek.args[0], st)
+        ln = sx.peek(fi, rn, read.args[0], st) if len(read.args) == 1 else None
+        B = descriptor_of(off)
+        if B is None or len(seek.args) != 1 or seek.keywords:
+            bad_seek = bad_seek or "offset = %s" % (stmt_text(off, 80) if off is not None else "?")
+            continue
+        descriptors.setdefault(kit.T(B), B)
+        want = poly(attr(B, "size"))
+        if ln is None or want is None or poly(ln) != want + Poly.const(1):
+            bad_len = bad_len or "length = %s for the descriptor %s" % (stmt_text(ln, 60) if ln is not None else "?", _short_val(B))
+    ctx.ob("the read position is block.start", bad_seek is None, fi, seek, detail=bad_seek)
+    ctx.ob("one byte more than the block size is read", bad_len is None, fi, read, detail=bad_len)
+
+    # --- the descriptor: the request's Block2 option, or a constant default starting at block 0 ------
+    for txt, B in sorted(descriptors.items()):
+        if chain(B) == "%s.opt.block2" % req:
+            ctx.ob("the block descriptor is the request's Block2 option (or a default)", True, fi, seek, construct="descriptor %s" % txt)
+            continue
+        ba = bt_args(B)
+        isdef = ba is not None and all(_num_const(a) is not None for a in ba)
+        ctx.ob("the block descriptor is the request's Block2 option (or a default)", isdef, fi, seek,
+               construct="descriptor %s" % _plain(B), detail=None if isdef else "descriptor value: %s" % _plain(B))
+        if isdef:
+            a0, a1, a2 = [_num_const(a) for a in ba]
+            ctx.ob("the default descriptor starts at block 0", a0 == 0 and a1 == 0 and 0 <= a2 <= 6, fi, seek, construct="default %s" % _plain(B))
+
+    # --- the response ----------------------------------------------------------------------------------
     msgs = []
-    for r in [n for n in walk_no_nested(fn) if isinstance(n, ast.Return) and n.value is not None]:
-        v = resolve_local(fn, r.value)
-        if isinstance(v, ast.Call) and any(k.arg == "payload" for k in v.keywords):
-            msgs.append((r, v))
+    for kind, val, st in outcomes:
+        if kind != "return" or "via_exc" in st.flags:
+            continue
+        pr = kit.opaque_parts(val)
+        if pr is not None and "payload" in kwargs_of(pr):
+            msgs.append((val, pr, st))
     ctx.floor("response messages built in render_get_file", len(msgs), 1)
-    for r, v in msgs:
-        pl = next(k.value for k in v.keywords if k.arg == "payload")
-        pl = resolve_local(fn, pl) if not (isinstance(pl, ast.Name) and pl.id == dvar) else pl
-        okp = (isinstance(pl, ast.Subscript) and isinstance(pl.value, ast.Name) and pl.value.id == dvar and isinstance(pl.slice, ast.Slice)
-               and (pl.slice.lower is None or _int_const(pl.slice.lower) == 0) and pl.slice.step is None and pl.slice.upper is not None and poly(pl.slice.upper) == size)
-        ctx.ob("the payload is data[:block.size]", okp, fi, v, detail="payload = %s" % stmt_text(pl, 60), construct="payload=%s" % stmt_text(pl, 60))
-        b2 = next((k.value for k in v.keywords if k.arg == "block2"), None)
-        okb = b2 is not None and ((isinstance(b2, ast.Name) and b2.id in outnames) or b2 in tuples)
-        ctx.ob("the Block2 option of the answer is the descriptor computed from the read", okb, fi, v, construct="block2=%s" % (stmt_text(b2, 60) if b2 is not None else "<absent>"))
-        # every other definition of that local is `None`, only when nothing follows (block 0, more False)
-        if okb and isinstance(b2, ast.Name):
-            for w in writes_to_name(fn, b2.id):
-                if isinstance(w, ast.Assign) and w.value in tuples:
-                    continue
-                isnone = isinstance(w, ast.Assign) and isinstance(w.value, ast.Constant) and w.value.value is None
-                g_more = g_zero = False
-                if isnone:
-                    for e, pol, _ in cfg.guards(cfg.loc1(w)):
-                        if pol and isinstance(e, ast.Compare) and len(e.ops) == 1:
-                            l, op, rr = e.left, e.ops[0], e.comparators[0]
-                            if chain(l) == b2.id + ".more" and isinstance(op, (ast.Is, ast.Eq)) and isinstance(rr, ast.Constant) and rr.value is False:
-                                g_more = True
-                            if chain(l) in (b2.id + ".block_number", Bname + ".block_number") and isinstance(op, ast.Eq) and _int_const(rr) == 0:
-                                g_zero = True
-                        if (not pol) and chain(e) == b2.id + ".more":
-                            g_more = True
-                ctx.ob("the Block2 option is only omitted for a complete body in block 0", isnone and g_more and g_zero, fi, w)
+    rets = [n for n in walk_no_nested(fn) if isinstance(n, ast.Return) and n.value is not None]
+    anchor = rets[-1] if rets else fn
+    bad = {"payload": None, "b2": None, "num": None, "more": None, "szx": None, "omit": None}
+    ntuples = 0
+    for val, pr, st in msgs:
+        kw = kwargs_of(pr)
+        off = sx.peek(fi, sn, seek.args[0], st)
+        B = descriptor_of(off)
+        if B is None:
+            # reported above; still count the descriptor so that the floor below is about the code, not the verdict
+            b2_ = kw.get("block2")
+            ntuples += 1 if (b2_ is not None and bt_args(b2_) is not None) else 0
+            continue
+        size = attr(B, "size")
+        pl = kw["payload"]
+        X = pl.value if isinstance(pl, ast.Subscript) else None
+        okp = (X is not None and isinstance(pl.slice, ast.Slice) and kit.marker_node(X) == rn and (pl.slice.lower is None or _int_const(pl.slice.lower) == 0)
+               and pl.slice.step is None and pl.slice.upper is not None and poly(pl.slice.upper) is not None and poly(pl.slice.upper) == poly(size))
+        if not okp:
+            bad["payload"] = bad["payload"] or "payload = %s" % stmt_text(pl, 100)
+        # the data read, as a value
+        data = X if (X is not None and kit.marker_node(X) == rn) else None
+        more_ref = None
+        if data is not None:
+            more_ref = ast.Compare(left=ast.Call(func=ast.Name(id="len", ctx=ast.Load()), args=[data], keywords=[]), ops=[ast.Gt()], comparators=[size])
+        b2 = kw.get("block2")
+        if b2 is None:
+            bad["b2"] = bad["b2"] or "<absent>"
+            continue
+        if isinstance(b2, ast.Constant) and b2.value is None:
+            zero = sx.tv(ast.Compare(left=attr(B, "block_number"), ops=[ast.Eq()], comparators=[ast.Constant(value=0)]), st)
+            more = sx.tv(more_ref, st) if more_ref is not None else None
+            if more is None and more_ref is not None:
+                # the same condition spelled `len(data) == n + 1` (at most n + 1 bytes are read)
+                more = sx.tv(ast.Compare(left=more_ref.left, ops=[ast.Eq()], comparators=[ast.BinOp(left=size, op=ast.Add(), right=ast.Constant(value=1))]), st)
+            if not (zero is True and more is False):
+                bad["omit"] = bad["omit"] or "omitted on the path [%s] (block number is 0: %s, more data: %s)" % (st.describe(), zero, more)
+            continue
+        ba = bt_args(b2)
+        if ba is None:
+            bad["b2"] = bad["b2"] or stmt_text(b2, 100)
+            continue
+        ntuples += 1
+        if kit.T(ba[0]) != kit.T(attr(B, "block_number")):
+            bad["num"] = bad["num"] or "number = %s" % stmt_text(ba[0], 60)
+        if kit.T(ba[2]) != kit.T(attr(B, "size_exponent")):
+            bad["szx"] = bad["szx"] or "size exponent = %s" % stmt_text(ba[2], 60)
+        # read(n + 1) returns at most n + 1 bytes, so `len(data) > n` and `len(data) == n + 1` are the same condition
+        more_eq = None
+        if more_ref is not None:
+            more_eq = ast.Compare(left=more_ref.left, ops=[ast.Eq()], comparators=[ast.BinOp(left=size, op=ast.Add(), right=ast.Constant(value=1))])
+        got_more = ba[1].args[0] if isinstance(ba[1], ast.Call) and chain(ba[1].func) == "bool" and len(ba[1].args) == 1 else ba[1]
+        if more_ref is None or kit.akey(got_more) not in (kit.akey(more_ref), kit.akey(more_eq)):
+            bad["more"] = bad["more"] or "more = %s" % stmt_text(ba[1], 80)
+    ctx.floor("answer Block2 descriptors", ntuples, 1)
+    ctx.ob("the payload is data[:block.size]", bad["payload"] is None, fi, anchor, detail=bad["payload"], construct="payload of the response")
+    ctx.ob("the Block2 option of the answer is the descriptor computed from the read", bad["b2"] is None, fi, anchor, detail=bad["b2"], construct="block2 of the response")
+    ctx.ob("the answer carries the requested block number", bad["num"] is None, fi, anchor, detail=bad["num"], construct="block2.block_number of the response")
+    ctx.ob("more is set exactly when more than block.size bytes could be read", bad["more"] is None, fi, anchor, detail=bad["more"], construct="block2.more of the response")
+    ctx.ob("the answer carries the requested size exponent", bad["szx"] is None, fi, anchor, detail=bad["szx"], construct="block2.size_exponent of the response")
+    ctx.ob("the Block2 option is only omitted for a complete body in block 0", bad["omit"] is None, fi, anchor, detail=bad["omit"], construct="block2=None")
 
     # BlockwiseTuple.start == block_number * size
     bt = prog.cls("optiontypes.BlockOption.BlockwiseTuple")
@@ -1087,7 +1211,7 @@ def d(ctx):
     ctx.need(sfi is not None, "BlockwiseTuple.start missing")
     rets = [n for n in walk_no_nested(sfi.node) if isinstance(n, ast.Return) and n.value is not None]
     ctx.need(len(rets) == 1, "BlockwiseTuple.start is not a single-return property")
-    got = Normalizer().poly(rets[0].value)
+    got = Normalizer(env=norm.local_env(sfi.node)).poly(rets[0].value)
     ctx.ob("BlockwiseTuple.start == block_number * size", got == Poly.atom("self.block_number") * Poly.atom("self.size"), sfi, rets[0], detail="start = %r" % got)
 
 
@@ -1149,18 +1273,31 @@ def e(ctx):
         scope = _scopes(fi)[0]
         sinks = [(call, label) for call, paths, mut, label in fl.sinks(scope)]
         # calls of helpers of the class that contain sinks themselves count as sinks here (one level)
+        # -- called directly, or handed over as a callable (method reference, closure, lambda, functools.partial of
+        # these) to a call that runs it: run_in_executor(None, self.m, a) / to_thread(job) are the same fact as m(a)
+        def _callee_with_sinks(x, depth=0):
+            x = resolve_local(fi.node, x)
+            if isinstance(x, ast.Attribute) and isinstance(x.value, ast.Name) and x.value.id == _self_name(fi):
+                m = fl.ci.methods.get(x.attr)
+                return m is not None and not _is_sanitiser(m) and bool(fl.sinks(_scopes(m)[0]))
+            if isinstance(x, ast.Name):
+                return any(f.parent is fi and f.name == x.id and fl.sinks(_scopes(f)[0]) for f in fl.funcs)
+            if isinstance(x, ast.Lambda):
+                return any(sc.lam is x and fl.sinks(sc) for sc in _scopes(fi))
+            if isinstance(x, ast.Call) and (chain(x.func) or "").split(".")[-1] == "partial" and x.args and depth < 3:
+                return _callee_with_sinks(x.args[0], depth + 1)
+            return False
+
         for nd in _scope_nodes(scope):
-            if isinstance(nd, ast.Call) and (chain(nd.func) or "").startswith("self.") and chain(nd.func).count(".") == 1:
-                m = fl.ci.methods.get(nd.func.attr)
-                if m is not None and not _is_sanitiser(m) and fl.sinks(_scopes(m)[0]):
-                    sinks.append((nd, "helper"))
+            if isinstance(nd, ast.Call) and (_callee_with_sinks(nd.func) or any(_callee_with_sinks(a) for a in nd.args)):
+                sinks.append((nd, "helper"))
         sink_nodes = {id(call): set(cfg.locate(call)) for call, _ in sinks}
         # a helper whose every call site is preceded by a successful sink needs no mapping of its own
         sites = fl.call_sites(fi.name)
         covered_by_caller = bool(sites) and all(
             s.lam is None and any(
                 cfg_of(s.fi).dominates(x, y) and x != y
-                for c2, *_ in fl.sinks(_scopes(s.fi)[0]) for x in cfg_of(s.fi).locate(c2) for y in cfg_of(s.fi).locate(cs))
+                for c2, *_ in fl.sinks(_scopes(s.fi)[0]) for x in cfg_of(s.fi).locate(c2) for y in cfg_of(s.fi).locate(getattr(cs, "_via", cs)))
             for s, cs in sites)
         for call, label in sinks:
             if label not in (".stat()", ".unlink()"):
@@ -1202,68 +1339,24 @@ def _exc_only(cfg, a, b):
 
 
 # ---------------------------------------------------------------------------
-def _implies_nonempty_path(prog, fi, e, pol, depth=0):
-    """Does the branch outcome (e, pol) establish that <request>.opt.uri_path is non-empty?  One level of helper
-    inlining: `self.m(request)` is replaced by m's single return expression."""
-    if (chain(e) or "").endswith(".opt.uri_path"):
-        return pol
-    if isinstance(e, ast.Subscript) and (chain(e.value) or "").endswith(".opt.uri_path") and not isinstance(e.slice, ast.Slice):
-        return pol  # a component was read and is truthy: the tuple is not empty
-    if isinstance(e, ast.Compare) and len(e.ops) == 1:
-        l, r, op = e.left, e.comparators[0], e.ops[0]
-        if isinstance(l, ast.Call) and chain(l.func) == "len" and l.args and (chain(l.args[0]) or "").endswith(".opt.uri_path") and isinstance(r, ast.Constant):
-            if isinstance(op, ast.Gt) and r.value >= 0:
-                return pol
-            if isinstance(op, ast.GtE) and r.value >= 1:
-                return pol
-            if isinstance(op, ast.Eq) and r.value == 0:
-                return not pol
-        if (chain(l) or "").endswith(".opt.uri_path") and isinstance(op, (ast.Eq, ast.NotEq)) and isinstance(r, (ast.Tuple, ast.List)) and not r.elts:
-            return (not pol) if isinstance(op, ast.Eq) else pol
-    if depth == 0 and isinstance(e, ast.Call) and isinstance(e.func, ast.Attribute) and chain(e.func.value) == "self" and fi.cls is not None:
-        m = prog.lookup_method(fi.cls.qn, e.func.attr)
-        if m is not None:
-            rets = [x for x in walk_no_nested(m.node) if isinstance(x, ast.Return) and x.value is not None]
-            if len(rets) == 1:
-                v = rets[0].value
-                # conjunction / disjunction: a False `a or b` gives not a and not b; a True `a and b` gives both
-                parts = []
-                if isinstance(v, ast.BoolOp) and ((isinstance(v.op, ast.Or) and not pol) or (isinstance(v.op, ast.And) and pol)):
-                    parts = list(v.values)
-                else:
-                    parts = [v]
-                for part in parts:
-                    pp = pol
-                    while isinstance(part, ast.UnaryOp) and isinstance(part.op, ast.Not):
-                        part, pp = part.operand, not pp
-                    if _implies_nonempty_path(prog, m, part, pp, depth + 1):
-                        return True
-    return False
-
-
 @R.clause("C19.f", "the root directory itself is never a target of PUT or DELETE: every mutating sink is dominated by a test that the Uri-Path is not empty")
 def f_not_root(ctx):
     """Added after an independently written breaking change folded the trailing-slash tests into a helper
     `uri_path[-1:] == ("",)`, which is False for the *empty* Uri-Path: PUT then spooled its temporary file into the
     parent of the served directory (outside the root) and, with the root given through a symlink, replaced or
     deleted that directory entry.  With an empty path request_to_localpath returns self.root itself, whose parent
-    and whose own directory entry lie outside the root."""
+    and whose own directory entry lie outside the root.
+
+    Decided by executing the class under the scenario "the request's Uri-Path is ()" (every expression over the
+    path is then a constant the checker's own evaluator folds: truthiness, len(), ==, [-1:], any()/all(), loops
+    over it run zero times, [-1] raises IndexError) and requiring that no mutating sink is reachable."""
     prog = ctx.prog
     fl = Flow(prog)
-    n = 0
-    for fi in fl.funcs:
-        if _is_sanitiser(fi):
-            continue
-        for scope in _scopes(fi):
-            muts = [(call, label) for call, paths, mut, label in fl.sinks(scope) if mut]
-            for call, label in muts:
-                n += 1
-                if scope.lam is not None:
-                    continue
-                cfg = cfg_of(fi)
-                ok = bool(cfg.locate(call)) and all(any(_implies_nonempty_path(prog, fi, e, pol) for e, pol in guard_exprs(cfg, nid)) for nid in cfg.locate(call))
-                ctx.ob("mutating operation %s is reached only for a non-empty Uri-Path (never for the root directory itself)" % label, ok, fi, call,
-                       detail=None if ok else "guards: %s" % [(stmt_text(e, 50), p) for nid in cfg.locate(call) for e, p in guard_exprs(cfg, nid)])
+    R_ = Reach(prog, fl)
+    sc = kit.Scenario("emptypath", bind=lambda c_: kit.K((), taint=True) if c_.endswith(".opt.uri_path") and c_.count(".") == 2 else None)
+    sx = R_.run(sc)
+    n = _check_unreachable(ctx, R_, [(sx, "with an empty Uri-Path")],
+                           "mutating operation %s is reached only for a non-empty Uri-Path (never for the root directory itself)", kinds=("sink",))
     ctx.floor("mutating sinks in FileServer", n, 4)
 
 
@@ -1304,3 +1397,15 @@ R.seed("C19.e", F, "            path.unlink()\n        except FileNotFoundError:
 R.seed("C19.e", F, "            st = path.stat()\n        except FileNotFoundError:\n            raise NoSuchFile()\n\n        etag", "            st = path.stat()\n        except FileNotFoundError:\n            raise\n\n        etag", "FileNotFoundError re-raised on GET")
 
 R.seed("C19.f", F, "    async def render_put(self, request):\n        if not self.write:\n            return aiocoap.Message(code=codes.FORBIDDEN)\n\n        if not request.opt.uri_path or not request.opt.uri_path[-1]:", "    async def render_put(self, request):\n        if not self.write:\n            return aiocoap.Message(code=codes.FORBIDDEN)\n\n        if request.opt.uri_path[-1:] == (\"\",):", "PUT with an empty Uri-Path spools next to (outside) the root")
+
+# seeds for the scenario-based clauses (generalised spellings must still be refuted)
+R.seed("C19.b", F, "        if \"\" in path[:-1]:\n", "        if \"//\" in \"/\".join(path):\n", "empty components looked for as '//' in the joined string: a single leading one ('', 'etc') is missed (witness evaluated concretely)")
+R.seed("C19.b", F, "p in (\".\", \"..\") for p in path):", "p in (\".\", \"..\") for p in path[:-1]):", "last component not validated")
+R.seed("C19.b", F, "        if any(\"/\" in p or p in (\".\", \"..\") for p in path):\n            raise InvalidPathError()\n",
+       "        for p in path:\n            if p.startswith(\"_\"):\n                break\n            if \"/\" in p or p in (\".\", \"..\"):\n                raise InvalidPathError()\n", "validation loop left early: later components unchecked")
+R.seed("C19.c", F, "    async def render_delete(self, request):\n        if not self.write:", "    async def render_delete(self, request):\n        if self.write is False:", "a falsy write flag other than False (None, 0) deletes")
+R.seed("C19.c", F, "    async def render_delete(self, request):\n        if not self.write:",
+       "    async def render_delete(self, request):\n        asyncio.get_event_loop().call_soon(lambda: self.request_to_localpath(request).unlink())\n        if not self.write:", "deleting callable created and scheduled before the write test")
+R.seed("C19.d", F, "            0, 0, 6\n", "            1, 0, 6\n", "default descriptor starts at block 1")
+R.seed("C19.d", F, "block_in.block_number, len(data) > block_in.size, block_in.size_exponent", "block_in.block_number, len(data) == block_in.size, block_in.size_exponent", "more set on exactly filled blocks only")
+R.seed("C19.f", F, "        if not request.opt.uri_path or not request.opt.uri_path[-1]:\n            # Deleting", "        if request.opt.uri_path and not request.opt.uri_path[-1]:\n            # Deleting", "DELETE with an empty Uri-Path unlinks the root's own directory entry")
